@@ -196,7 +196,7 @@ def abs_attrs(attrs):
 
 # ====================================================================== printers (abstract -> Coq)
 def p_s(s):
-    return cp.byts(s.encode('ascii'))
+    return cp.byts(s.encode('utf-8'))
 
 
 def p_oz(x):
@@ -364,6 +364,7 @@ class LoopSock:
         kdrv.engine_mod.time = self.eng.clock
         conn = Conn(self.der)
         conn.inbuf = bytes(b)
+        self.rbuf = b''            # a new request: whatever an earlier, failed client call left unread is gone
         s = KmipSession(self.eng.engine, conn, ('127.0.0.1', 5696), name='c05', enable_tls_client_auth=True)
         s._logger.setLevel(logging.CRITICAL + 1)
         s._handle_message_loop()
@@ -549,7 +550,7 @@ class Stack:
 ALPHA = 'abcdefghijklmnopqrstuvwxyzABCDEFGHIJKLMNOPQRSTUVWXYZ0123456789 _-./:@'
 
 
-SHARED = ['tier-1', 'backup', 'prod', 'eu-west', 'A', 'z']
+SHARED = ['tier-1', 'backup', 'prod', 'eu-west', 'A', 'z', 'caf\u00e9', '\u9375-\u00df']
 
 
 def g_shared(rng, lo=1, hi=12):
@@ -559,7 +560,8 @@ def g_shared(rng, lo=1, hi=12):
 def g_str(rng, lo=1, hi=12):
     r = rng.random()
     n = rng.randint(lo, hi) if r < 0.9 else (lo if r < 0.95 else rng.randint(100, 300))
-    return ''.join(rng.choice(ALPHA) for _ in range(n))
+    alpha = ALPHA if rng.random() < 0.9 else ALPHA + '\u00e9\u00fc\u0416\u4e2d\U0001f511'      # UTF-8 text of 2, 3 and 4 bytes per character
+    return ''.join(rng.choice(alpha) for _ in range(n))
 
 
 def g_bytes(rng, big=300):
@@ -670,7 +672,9 @@ def g_attrs(rng, ver, secret):
     names = []
     for _ in range(nn):
         n = g_shared(rng)
-        if names and rng.random() < 0.05:
+        while n in names:
+            n = g_str(rng)
+        if names and rng.random() < 0.04:
             n = rng.choice(names)
         names.append(n)
     for i, n in enumerate(names):
@@ -738,7 +742,7 @@ def oracle_strip_falsy(s):
     if kb and kb['kwd']:
         for which in ('eki', 'mski'):
             ki = kb['kwd'][which]
-            if ki is not None and cp_falsy_only(ki['cp']):
+            if ki is not None and (cp_falsy_only(ki['cp']) or ki['cp'] is None):
                 ki['cp'] = None
                 if not ki['uid']:
                     kb['kwd'][which] = None
